@@ -195,7 +195,9 @@ def run(ctx):
                     return {"dc": case[0], "fullsheet": case[1], "text": case[2], "fails": d}
         return None
 
+    extra = {"coqchk": ctx.coqchk("props/C08.v")} if thorough and b.ok else {}
     ctx.finish({
+        **extra,
         "evaluations": len(cases),
         "distinct_nontrivial": len(nontrivial),
         "rule": "all texts of length <= 3 over a %d-symbol alphabet in both modes (%d cases, exhaustive part), "
